@@ -50,9 +50,13 @@ var targets = []target{
 	{Pkg: "internal/httprule/gwbased", Name: "isHexDigit"},
 	// C14
 	{Pkg: "routing", Name: "parseRPCName"},
+	// C13
+	{Pkg: "webbridge", Name: "closeReason"},
 }
 
 type failure struct{ msg string }
+
+var abstractFns = map[string]bool{} // translated functions with uninterpreted-library parameters
 
 var fset *token.FileSet
 var repo string
@@ -169,19 +173,21 @@ var leanKeywords = map[string]bool{"at": true, "from": true, "end": true, "open"
 	"else": true, "fun": true, "have": true, "show": true, "match": true, "with": true, "let": true, "if": true, "def": true,
 	"theorem": true, "by": true, "Type": true, "Prop": true, "where": true, "instance": true, "structure": true, "class": true,
 	"namespace": true, "section": true, "variable": true, "import": true, "mutual": true, "infix": true, "notation": true,
-	}
+}
 
 type tr struct {
-	pkg     *packages.Package
-	info    *types.Info
-	decl    *ast.FuncDecl
-	names   map[types.Object]string
-	used    map[string]bool
-	retType string
-	named   []types.Object // named results
-	leanOf  map[*types.Func]string
-	calls   map[string]bool
-	libUsed map[string]bool
+	pkg         *packages.Package
+	info        *types.Info
+	decl        *ast.FuncDecl
+	names       map[types.Object]string
+	used        map[string]bool
+	retType     string
+	named       []types.Object // named results
+	leanOf      map[*types.Func]string
+	calls       map[string]bool
+	libUsed     map[string]bool
+	abstract    map[string]string // uninterpreted library functions used: parameter name -> Lean type
+	hasAbstract map[string]bool   // translated functions that take such parameters (calling them is outside the subset)
 }
 
 func (t *tr) nameOf(o types.Object) string {
@@ -527,6 +533,9 @@ func (t *tr) repoCall(x *ast.CallExpr, o *types.Func, args []string) string {
 	if !ok {
 		fail(x, "call to %s.%s, which is not in the translator's target list", o.Pkg().Path(), o.Name())
 	}
+	if abstractFns[name] {
+		fail(x, "call to %s, which is parameterised by an uninterpreted library function", name)
+	}
 	t.calls[name] = true
 	return "(" + name + " " + strings.Join(args, " ") + ")"
 }
@@ -538,6 +547,12 @@ func isASCII(s string) bool {
 		}
 	}
 	return true
+}
+
+// library functions that are NOT modelled but may be called: the call is kept uninterpreted, the translated
+// definition is parameterised by the function (the tie theorem instantiates or quantifies it).
+var abstractLib = map[string]struct{ param, typ string }{
+	"strings.ToValidUTF8": {"toValidUTF8", "GB.Bytes → GB.Bytes → GB.Bytes"},
 }
 
 // the fixed library of modelled standard-library functions (lean/GB/Base/TransLib.lean)
@@ -574,6 +589,17 @@ func (t *tr) libCall(x *ast.CallExpr, o *types.Func) string {
 		return "(GB.Trans.parseInt10 " + e(0) + ")"
 	case "unicode/utf8.RuneStart":
 		return "(GB.Trans.runeStart " + e(0) + ")"
+	}
+	if ab, ok := abstractLib[q]; ok {
+		// an UNINTERPRETED library function: the translated definition takes it as an extra leading parameter
+		delete(t.libUsed, q)
+		t.abstract[ab.param] = ab.typ
+		t.libUsed[q+" (uninterpreted: parameter "+ab.param+")"] = true
+		var as []string
+		for i := range x.Args {
+			as = append(as, e(i))
+		}
+		return "(" + ab.param + " " + strings.Join(as, " ") + ")"
 	}
 	delete(t.libUsed, q)
 	fail(x, "call to %s: not in the library of modelled standard-library functions", q)
@@ -934,6 +960,9 @@ func (t *tr) loopStmt(s ast.Stmt, rest []ast.Stmt, c ctx, d int) string {
 	var values, binder string
 	switch x := s.(type) {
 	case *ast.ForStmt:
+		if x.Init == nil && x.Post == nil && x.Cond != nil {
+			return t.countdown(x, rest, c, d)
+		}
 		// for i := lo; i < hi; i++ { body }
 		body = x.Body
 		init, ok := x.Init.(*ast.AssignStmt)
@@ -1025,6 +1054,91 @@ func (t *tr) loopStmt(s ast.Stmt, rest []ast.Stmt, c ctx, d int) string {
 	return out + t.stmts(rest, c, d+1) + ind(d) + ")\n"
 }
 
+// `for n > 0 && REST { …; n--; … }`: a while loop that terminates because the Int variable n is positive on
+// entry to every iteration and every completed iteration decrements it exactly once (n is assigned nowhere
+// else in the body, the decrement is a top-level statement of the body, there is no `continue`).
+// Fuel = the value of n before the loop (as a Nat): after that many iterations n = 0 and the condition is false.
+func (t *tr) countdown(x *ast.ForStmt, rest []ast.Stmt, c ctx, d int) string {
+	conj := []ast.Expr{}
+	var flat func(e ast.Expr)
+	flat = func(e ast.Expr) {
+		if p, ok := e.(*ast.ParenExpr); ok {
+			flat(p.X)
+			return
+		}
+		if b, ok := e.(*ast.BinaryExpr); ok && b.Op == token.LAND {
+			flat(b.X)
+			flat(b.Y)
+			return
+		}
+		conj = append(conj, e)
+	}
+	flat(x.Cond)
+	var nv types.Object
+	for _, e := range conj {
+		if b, ok := e.(*ast.BinaryExpr); ok && b.Op == token.GTR {
+			if id, ok := b.X.(*ast.Ident); ok {
+				if tv := t.info.Types[b.Y]; tv.Value != nil && tv.Value.Kind() == constant.Int && constant.Sign(tv.Value) == 0 {
+					nv = t.info.Uses[id]
+				}
+			}
+		}
+	}
+	if nv == nil || leanType(x, nv.Type()) != tInt {
+		fail(x, "for loop with a condition only: only the countdown form `for n > 0 && … { …; n--; … }` is in the subset")
+	}
+	decs := 0
+	for _, s := range x.Body.List {
+		if inc, ok := s.(*ast.IncDecStmt); ok && inc.Tok == token.DEC {
+			if id, ok := inc.X.(*ast.Ident); ok && t.info.Uses[id] == nv {
+				decs++
+			}
+		}
+	}
+	assigns := 0
+	ast.Inspect(x.Body, func(n ast.Node) bool {
+		switch y := n.(type) {
+		case *ast.AssignStmt:
+			for _, l := range y.Lhs {
+				if id, ok := l.(*ast.Ident); ok && t.info.Uses[id] == nv {
+					assigns++
+				}
+			}
+		case *ast.IncDecStmt:
+			if id, ok := y.X.(*ast.Ident); ok && t.info.Uses[id] == nv {
+				assigns++
+			}
+		case *ast.BranchStmt:
+			if y.Tok == token.CONTINUE {
+				fail(y, "continue inside a countdown loop outside the subset")
+			}
+		}
+		return true
+	})
+	if decs != 1 || assigns != 1 {
+		fail(x, "countdown loop: the body must decrement %s exactly once, at top level, and not assign it otherwise", nv.Name())
+	}
+	state := t.assignedOuter(x.Body)
+	inner := ctx{loop: true, state: state}
+	sb := loopStateBinder(t, state)
+	out := ind(d) + fmt.Sprintf("(match GB.Trans.whileLoop (ρ := %s) (Int.toNat %s) %s (fun %s =>\n", t.retType, t.nameOf(nv), t.stateTuple(state), sb)
+	if len(state) > 1 {
+		out += ind(d+2) + "let " + t.stateTuple(state) + " := st\n"
+	}
+	out += ind(d+2) + t.expr(x.Cond) + "\n" + ind(d+1) + ") (fun " + sb + " =>\n"
+	if len(state) > 1 {
+		out += ind(d+2) + "let " + t.stateTuple(state) + " := st\n"
+	}
+	out += t.stmts(x.Body.List, inner, d+2)
+	out += ind(d+1) + ") with\n"
+	out += ind(d) + "| .ret r => " + t.ret(c, "r") + "\n"
+	out += ind(d) + "| .done " + sb + " =>\n"
+	if len(state) > 1 {
+		out += ind(d+1) + "let " + t.stateTuple(state) + " := st\n"
+	}
+	return out + t.stmts(rest, c, d+1) + ind(d) + ")\n"
+}
+
 func loopStateBinder(t *tr, state []types.Object) string {
 	switch len(state) {
 	case 0:
@@ -1059,7 +1173,8 @@ func translate(p *packages.Package, fd *ast.FuncDecl, name string, leanOf map[*t
 		}
 	}()
 	t := &tr{pkg: p, info: p.TypesInfo, decl: fd, names: map[types.Object]string{}, used: map[string]bool{"st": true, "r": true},
-		leanOf: leanOf, calls: map[string]bool{}, libUsed: map[string]bool{}}
+		leanOf: leanOf, calls: map[string]bool{}, libUsed: map[string]bool{}, abstract: map[string]string{}}
+	t.used["toValidUTF8"] = true
 	if fd.Recv != nil {
 		fail(fd, "methods are outside the subset")
 	}
@@ -1110,6 +1225,19 @@ func translate(p *packages.Package, fd *ast.FuncDecl, name string, leanOf map[*t
 		res.Lib = append(res.Lib, c)
 	}
 	sort.Strings(res.Lib)
+	if len(t.abstract) > 0 {
+		var ks []string
+		for k := range t.abstract {
+			ks = append(ks, k)
+		}
+		sort.Strings(ks)
+		var ps []string
+		for _, k := range ks {
+			ps = append(ps, fmt.Sprintf("(%s : %s)", k, t.abstract[k]))
+		}
+		params = append(ps, params...)
+		abstractFns[name] = true
+	}
 	res.text = fmt.Sprintf("/-- translated from `%s` (%s) -/\ndef %s %s : %s :=\n%s", res.Go, res.Source, name, strings.Join(params, " "), t.retType, body)
 	return res, nil
 }
